@@ -467,7 +467,8 @@ func dumpLeafNode(node *node) (string, bool) {
 	var res string
 	switch v := node.value.(type) {
 	case string:
-		res = strconv.Quote(v)
+		// the lexer has no escape sequences: a string literal is the raw text between two quotes
+		res = `"` + v + `"`
 	case []string:
 		var sb strings.Builder
 		sb.WriteRune('(')
@@ -475,7 +476,7 @@ func dumpLeafNode(node *node) (string, bool) {
 			if idx != 0 {
 				sb.WriteRune(' ')
 			}
-			sb.WriteString(strconv.Quote(s))
+			sb.WriteString(`"` + s + `"`)
 		}
 		sb.WriteRune(')')
 		res = sb.String()
